@@ -13,7 +13,13 @@ use std::collections::HashMap;
 #[derive(Serialize, Deserialize, Clone, Debug)]
 #[serde(tag = "t")]
 pub enum Op {
-    Enter { n: u32, args: Option<Vec<String>>, att: Option<Vec<(String, String)>> },
+    Enter {
+        n: u32,
+        args: Option<Vec<String>>,
+        att: Option<Vec<(String, String)>>,
+        #[serde(default)]
+        inb: bool,
+    },
     Exit { k: usize },
     Adv { ms: u64 },
 }
@@ -119,6 +125,13 @@ impl Prop for C05 {
                 }
                 hot.push(h);
             }
+            // an override of 0 ("ban this value"), only with a single hotspot rule: the library admits the
+            // very first sighting of a value unchecked, which the oracle tolerates for a cap of 0 only
+            if hot.len() == 1 && rng.chance(1, 4) {
+                let v = values[rng.below(nvals as u64) as usize].to_string();
+                hot[0].specific.retain(|(k, _)| *k != v);
+                hot[0].specific.push((v, 0));
+            }
         }
         let nops = rng.range(20, 70);
         let maxbatch = *rng.pick(&[1u64, 1, 1, 2, 3]);
@@ -140,7 +153,7 @@ impl Prop for C05 {
                     } else {
                         None
                     };
-                    ops.push(Op::Enter { n: rng.range(1, maxbatch) as u32, args, att });
+                    ops.push(Op::Enter { n: rng.range(1, maxbatch) as u32, args, att, inb: rng.chance(1, 3) });
                 }
                 1 => ops.push(Op::Exit { k: rng.below(8) as usize }),
                 _ => ops.push(Op::Adv { ms: *rng.pick(&[0u64, 1, 499, 500, 1000, 2500, 10_000, 60_000]) }),
@@ -174,15 +187,15 @@ impl Prop for C05 {
             out.push(serde_json::to_value(c).unwrap());
         }
         for (i, op) in sc.ops.iter().enumerate() {
-            if let Op::Enter { n, args, att } = op {
+            if let Op::Enter { n, args, att, inb } = op {
                 if *n > 1 {
                     let mut c = sc.clone();
-                    c.ops[i] = Op::Enter { n: 1, args: args.clone(), att: att.clone() };
+                    c.ops[i] = Op::Enter { n: 1, args: args.clone(), att: att.clone(), inb: *inb };
                     out.push(serde_json::to_value(c).unwrap());
                 }
                 if att.is_some() {
                     let mut c = sc.clone();
-                    c.ops[i] = Op::Enter { n: *n, args: args.clone(), att: None };
+                    c.ops[i] = Op::Enter { n: *n, args: args.clone(), att: None, inb: *inb };
                     out.push(serde_json::to_value(c).unwrap());
                 }
             }
@@ -197,6 +210,7 @@ fn run(sc: &Scn, w: &mut World, tr: &mut Trace, cov: &mut Cov) -> Option<Violati
     // per hotspot rule: value -> in-flight entries
     let mut hot_inflight: Vec<HashMap<String, u64>> = sc.hot.iter().map(|_| HashMap::new()).collect();
     let (mut n_adm, mut n_rej) = (0u64, 0u64);
+    let mut seen: Vec<std::collections::HashSet<String>> = sc.hot.iter().map(|_| Default::default()).collect();
     let mut exit_then_admit = false;
     let mut last_was_exit = false;
     for (i, op) in sc.ops.iter().enumerate() {
@@ -218,11 +232,15 @@ fn run(sc: &Scn, w: &mut World, tr: &mut Trace, cov: &mut Cov) -> Option<Violati
                 }
                 continue;
             }
-            Op::Enter { n, args, att } => {
+            Op::Enter { n, args, att, inb } => {
+                if *inb {
+                    cov.hit("inbound_entry");
+                }
                 let inflight = w.open.len() as u64;
                 // isolation expectation (exact)
                 let iso_exceeded: Vec<&IsoSpec> = sc.iso.iter().filter(|r| inflight + *n as u64 > r.threshold as u64).collect();
                 // hotspot expectation with the stated latitude for batch > 1
+                let mut ambiguous = false;
                 let mut hot_must_reject: Vec<&HotspotSpec> = vec![]; // inflight_v + 1 > T_v
                 let mut hot_may_reject: Vec<&HotspotSpec> = vec![]; // inflight_v + n > T_v
                 for (hi, h) in sc.hot.iter().enumerate() {
@@ -231,6 +249,15 @@ fn run(sc: &Scn, w: &mut World, tr: &mut Trace, cov: &mut Cov) -> Option<Violati
                         Some(v) => {
                             let c = *hot_inflight[hi].get(&v).unwrap_or(&0);
                             let t = h.threshold_for(&v);
+                            let first_sighting = seen[hi].insert(v.clone());
+                            if t == 0 {
+                                cov.hit("hotspot_cap_zero");
+                                if first_sighting {
+                                    // outside the quantifier (caps 1..k): first sighting is admitted unchecked
+                                    ambiguous = true;
+                                    continue;
+                                }
+                            }
                             if h.specific.iter().any(|(k, _)| *k == v) {
                                 cov.hit("hotspot_override_applied");
                             }
@@ -246,10 +273,10 @@ fn run(sc: &Scn, w: &mut World, tr: &mut Trace, cov: &mut Cov) -> Option<Violati
                         }
                     }
                 }
-                let obs = w.enter(&sc.res, *n, false, args.clone(), att.clone());
+                let obs = w.enter(&sc.res, *n, *inb, args.clone(), att.clone());
                 tr.word(obs.admitted as u64);
-                let must_admit = iso_exceeded.is_empty() && hot_may_reject.is_empty();
-                let must_reject = !iso_exceeded.is_empty() || !hot_must_reject.is_empty();
+                let must_admit = !ambiguous && iso_exceeded.is_empty() && hot_may_reject.is_empty();
+                let must_reject = !iso_exceeded.is_empty() || (!ambiguous && !hot_must_reject.is_empty());
                 if obs.admitted && must_reject {
                     let fam = if !iso_exceeded.is_empty() { "isolation" } else { "hotspot" };
                     return Some(Violation::new(
@@ -289,6 +316,7 @@ fn run(sc: &Scn, w: &mut World, tr: &mut Trace, cov: &mut Cov) -> Option<Violati
                     if hot_blocked {
                         match &b.rule_id {
                             Some(id) if hot_may_reject.iter().any(|h| &h.id == id) => {}
+                            _ if ambiguous => {}
                             _ => return Some(Violation::new("C05/report/hotspot-rule-not-exceeded", i, b.text)),
                         }
                     } else {
